@@ -73,7 +73,8 @@ def replay_calc_pfactor(obligation, model, meta):
     rng = np.random.default_rng(7)
     for n in (2, 3, 5):
         As = rng.normal(size=(n, n))
-        stub = SimpleNamespace(As=As, calc_eig=lambda As_=None, As0=As: np.linalg.eig(As0 if As_ is None else As_))
+        from contracts.packutil import Stub
+        stub = Stub(_cls=None, As=As, calc_eig=lambda As_=None, As0=As: np.linalg.eig(As0 if As_ is None else As_))
         ret = EIG.calc_pfactor(stub, As)
         pf = ret[1]
         pf = np.asarray(pf)
@@ -92,7 +93,8 @@ def replay_store_stats(obligation, model, meta):
     from andes.routines.eig import EIG
     tol = 1e-6
     for mu in (np.array([-1 + 2j, 0.5 + 0j, 0j]), np.array([1j, -1j, 5e-7 + 3j, -2.0]), np.array([tol, -tol, 2 * tol, -2 * tol + 1j])):
-        stub = SimpleNamespace(mu=mu, config=SimpleNamespace(tol=tol))
+        from contracts.packutil import Stub
+        stub = Stub(_cls=EIG, mu=mu, config=SimpleNamespace(tol=tol))
         EIG._store_stats(stub)
         want = (int(np.sum(mu.real > tol)), int(np.sum(np.abs(mu.real) <= tol)), int(np.sum(mu.real < -tol)))
         got = (int(stub.n_positive), int(stub.n_zeros), int(stub.n_negative))
